@@ -605,94 +605,392 @@ fn measure(ty: &Ty, v: &TVal) -> (usize, usize) {
     (v.node_count() + ty.node_count(), w(ty, v))
 }
 
-/// Typed one-step reductions of a pair (every result is a well-formed pair).
-pub fn shrink_steps(ty: &Ty, v: &TVal) -> Vec<(Ty, TVal)> {
-    let mut out: Vec<(Ty, TVal)> = Vec::new();
-    // hoist children
-    match (ty, v) {
-        (Ty::Newtype(_, t), x) => out.push(((**t).clone(), x.clone())),
-        (Ty::Option(t), TVal::Some(x)) => out.push(((**t).clone(), (**x).clone())),
-        _ => {
-            for (_, t, x) in children(ty, v) {
-                out.push((t.clone(), x.clone()));
-            }
-        }
+/// No map of the tree has two equal keys (equal keys are outside the grammar).
+pub fn keys_distinct(ty: &Ty, v: &TVal) -> bool {
+    !any_node(ty, v, &|_, x| match x {
+        TVal::Map(ps) => (0..ps.len()).any(|i| (0..i).any(|j| ps[i].0 == ps[j].0)),
+        _ => false,
+    })
+}
+
+type Conv = std::rc::Rc<dyn Fn(&TVal) -> TVal>;
+
+fn conv(f: impl Fn(&TVal) -> TVal + 'static) -> Conv {
+    std::rc::Rc::new(f)
+}
+
+fn enum_single(e: &EnumTy, var: VariantTy) -> Ty {
+    Ty::enumeration(e.name, 0, vec![var])
+}
+
+fn variant_default(v: &VariantTy) -> TVal {
+    match v {
+        VariantTy::Unit => TVal::Unit,
+        VariantTy::Newtype(t) => t.default_val(),
+        VariantTy::Tuple(ts) => TVal::Tuple(ts.iter().map(|t| t.default_val()).collect()),
+        VariantTy::Struct(f) => TVal::Struct(f.fields.iter().map(|f| f.ty.default_val()).collect()),
     }
-    // leaf
-    if ty.is_scalar() {
-        if let Some(c) = canonical_leaf(ty)
-            && c != *v
-        {
-            out.push((ty.clone(), c));
+}
+
+/// Type-level rewrites of `ty` — at this node first, then inside its children — each with the
+/// conversion that carries *every* value of the old type to a value of the new type (so the
+/// elements of a homogeneous container are rewritten together).
+fn type_steps(ty: &Ty) -> Vec<(Ty, Conv)> {
+    let mut out: Vec<(Ty, Conv)> = Vec::new();
+    // ---- rewrites of this node
+    match ty {
+        Ty::Option(t) => {
+            let d = t.default_val();
+            out.push((
+                (**t).clone(),
+                conv(move |v| match v {
+                    TVal::Some(x) => (**x).clone(),
+                    _ => d.clone(),
+                }),
+            ));
         }
-        if *ty != Ty::I32 {
-            out.push((Ty::I32, TVal::I(0)));
+        Ty::Newtype(_, t) => out.push(((**t).clone(), conv(|v| v.clone()))),
+        Ty::Seq(t) => {
+            let d = t.default_val();
+            let d2 = d.clone();
+            out.push((
+                (**t).clone(),
+                conv(move |v| match v {
+                    TVal::Seq(xs) => xs.first().cloned().unwrap_or_else(|| d.clone()),
+                    _ => d.clone(),
+                }),
+            ));
+            out.push((
+                (**t).clone(),
+                conv(move |v| match v {
+                    TVal::Seq(xs) => xs.last().cloned().unwrap_or_else(|| d2.clone()),
+                    _ => d2.clone(),
+                }),
+            ));
         }
-        return out;
-    }
-    // whole subtree -> leaf
-    out.push((Ty::I32, TVal::I(0)));
-    match (ty, v) {
-        (Ty::Option(t), TVal::Some(x)) => {
-            for (t2, x2) in shrink_steps(t, x) {
-                if !t2.absorbs_null() {
-                    out.push((Ty::opt(t2), TVal::some(x2)));
-                }
-            }
-        }
-        (Ty::Option(t), TVal::None) => {
-            if **t != Ty::I32 {
-                out.push((Ty::opt(Ty::I32), TVal::None));
-            }
-        }
-        (Ty::Newtype(n, t), x) => {
-            for (t2, x2) in shrink_steps(t, x) {
-                out.push((Ty::newtype(*n, t2), x2));
-            }
-        }
-        (Ty::Seq(t), TVal::Seq(xs)) => {
-            for i in 0..xs.len() {
-                let mut ys = xs.clone();
-                ys.remove(i);
-                out.push((ty.clone(), TVal::Seq(ys)));
-            }
-            if xs.is_empty() {
-                if **t != Ty::I32 {
-                    out.push((Ty::seq(Ty::I32), TVal::Seq(vec![])));
-                }
-            } else if xs.iter().all(|x| *x == xs[0]) {
-                for (t2, x2) in shrink_steps(t, &xs[0]) {
-                    out.push((Ty::seq(t2), TVal::Seq(vec![x2; xs.len()])));
-                }
-            } else {
-                out.push((ty.clone(), TVal::Seq(vec![xs[0].clone(); xs.len()])));
-                out.push((Ty::seq(Ty::I32), TVal::Seq(vec![TVal::I(0); xs.len()])));
-            }
-        }
-        (Ty::Tuple(ts), TVal::Tuple(xs)) | (Ty::TupleStruct(_, ts), TVal::Tuple(xs)) => {
+        Ty::Tuple(ts) | Ty::TupleStruct(_, ts) => {
             let is_ts = matches!(ty, Ty::TupleStruct(..));
-            let mk = |ts: Vec<Ty>, xs: Vec<TVal>| match ty {
-                Ty::TupleStruct(n, _) => (Ty::TupleStruct(*n, ts), TVal::Tuple(xs)),
-                _ => (Ty::Tuple(ts), TVal::Tuple(xs)),
-            };
+            for (i, t) in ts.iter().enumerate() {
+                let d = t.default_val();
+                out.push((
+                    t.clone(),
+                    conv(move |v| match v {
+                        TVal::Tuple(xs) => xs.get(i).cloned().unwrap_or_else(|| d.clone()),
+                        _ => d.clone(),
+                    }),
+                ));
+            }
             if is_ts {
-                out.push((Ty::Tuple(ts.clone()), v.clone()));
+                out.push((Ty::Tuple(ts.clone()), conv(|v| v.clone())));
             }
             let min = if is_ts { 2 } else { 1 };
             if ts.len() > min {
                 for i in 0..ts.len() {
-                    let (mut t2, mut x2) = (ts.clone(), xs.clone());
+                    let mut t2 = ts.clone();
                     t2.remove(i);
-                    x2.remove(i);
-                    out.push(mk(t2, x2));
+                    let nt = match ty {
+                        Ty::TupleStruct(n, _) => Ty::TupleStruct(*n, t2),
+                        _ => Ty::Tuple(t2),
+                    };
+                    out.push((
+                        nt,
+                        conv(move |v| match v {
+                            TVal::Tuple(xs) => {
+                                let mut ys = xs.clone();
+                                if i < ys.len() {
+                                    ys.remove(i);
+                                }
+                                TVal::Tuple(ys)
+                            }
+                            other => other.clone(),
+                        }),
+                    ));
                 }
             }
+        }
+        Ty::Map(k, w) => {
+            let (dk, dw) = (k.default_val(), w.default_val());
+            out.push((
+                (**w).clone(),
+                conv(move |v| match v {
+                    TVal::Map(ps) => ps.first().map(|p| p.1.clone()).unwrap_or_else(|| dw.clone()),
+                    _ => dw.clone(),
+                }),
+            ));
+            out.push((
+                (**k).clone(),
+                conv(move |v| match v {
+                    TVal::Map(ps) => ps.first().map(|p| p.0.clone()).unwrap_or_else(|| dk.clone()),
+                    _ => dk.clone(),
+                }),
+            ));
+            if !k.is_scalar() {
+                out.push((
+                    Ty::map(Ty::Str, (**w).clone()),
+                    conv(|v| match v {
+                        TVal::Map(ps) => TVal::Map(ps.iter().enumerate().map(|(i, (_, b))| (TVal::Str(format!("k{i}")), b.clone())).collect()),
+                        other => other.clone(),
+                    }),
+                ));
+                let canon = Ty::strukt(5, vec![Ty::I32], false);
+                if **k != canon {
+                    out.push((
+                        Ty::map(canon, (**w).clone()),
+                        conv(|v| match v {
+                            TVal::Map(ps) => {
+                                TVal::Map(ps.iter().enumerate().map(|(i, (_, b))| (TVal::Struct(vec![TVal::I(i as i128)]), b.clone())).collect())
+                            }
+                            other => other.clone(),
+                        }),
+                    ));
+                }
+            }
+        }
+        Ty::Struct(s) => {
+            for (i, f) in s.body.fields.iter().enumerate() {
+                let d = f.ty.default_val();
+                out.push((
+                    f.ty.clone(),
+                    conv(move |v| match v {
+                        TVal::Struct(xs) => xs.get(i).cloned().unwrap_or_else(|| d.clone()),
+                        _ => d.clone(),
+                    }),
+                ));
+            }
+            if s.body.fields.len() > 1 {
+                for i in 0..s.body.fields.len() {
+                    let mut ts: Vec<Ty> = s.body.fields.iter().map(|f| f.ty.clone()).collect();
+                    ts.remove(i);
+                    out.push((
+                        Ty::strukt(s.name, ts, false),
+                        conv(move |v| match v {
+                            TVal::Struct(xs) => {
+                                let mut ys = xs.clone();
+                                if i < ys.len() {
+                                    ys.remove(i);
+                                }
+                                TVal::Struct(ys)
+                            }
+                            other => other.clone(),
+                        }),
+                    ));
+                }
+            }
+        }
+        Ty::Enum(e) => {
+            for (j, var) in e.variants.iter().enumerate() {
+                let dflt = variant_default(var);
+                // keep only variant j
+                if e.variants.len() > 1 || e.voff != 0 {
+                    let d = dflt.clone();
+                    out.push((
+                        enum_single(e, var.clone()),
+                        conv(move |v| match v {
+                            TVal::Variant(i, p) if *i as usize == j => TVal::variant(0, (**p).clone()),
+                            _ => TVal::variant(0, d.clone()),
+                        }),
+                    ));
+                }
+                let payload = move |d: TVal| {
+                    conv(move |v: &TVal| match v {
+                        TVal::Variant(i, p) if *i as usize == j => (**p).clone(),
+                        _ => d.clone(),
+                    })
+                };
+                let rewrap = move |d: TVal| {
+                    conv(move |v: &TVal| match v {
+                        TVal::Variant(i, p) if *i as usize == j => TVal::variant(0, (**p).clone()),
+                        _ => TVal::variant(0, d.clone()),
+                    })
+                };
+                match var {
+                    VariantTy::Unit => {}
+                    VariantTy::Newtype(t) => out.push((t.clone(), payload(dflt.clone()))),
+                    VariantTy::Tuple(ts) => {
+                        out.push((Ty::Tuple(ts.clone()), payload(dflt.clone())));
+                        out.push((enum_single(e, VariantTy::Newtype(Ty::Tuple(ts.clone()))), rewrap(dflt.clone())));
+                    }
+                    VariantTy::Struct(fs) => {
+                        let st = Ty::strukt(6, fs.fields.iter().map(|f| f.ty.clone()).collect(), false);
+                        out.push((st.clone(), payload(dflt.clone())));
+                        out.push((enum_single(e, VariantTy::Newtype(st)), rewrap(dflt.clone())));
+                    }
+                }
+            }
+        }
+        _ => {}
+    }
+    if *ty != Ty::I32 {
+        out.push((Ty::I32, conv(|_| TVal::I(0))));
+    }
+    // ---- rewrites inside the children, lifted
+    match ty {
+        Ty::Option(t) => {
+            for (t2, c) in type_steps(t) {
+                if !t2.absorbs_null() {
+                    out.push((
+                        Ty::opt(t2),
+                        conv(move |v| match v {
+                            TVal::Some(x) => TVal::some(c(x)),
+                            other => other.clone(),
+                        }),
+                    ));
+                }
+            }
+        }
+        Ty::Newtype(n, t) => {
+            for (t2, c) in type_steps(t) {
+                out.push((Ty::newtype(*n, t2), c));
+            }
+        }
+        Ty::Seq(t) => {
+            for (t2, c) in type_steps(t) {
+                out.push((
+                    Ty::seq(t2),
+                    conv(move |v| match v {
+                        TVal::Seq(xs) => TVal::Seq(xs.iter().map(|x| c(x)).collect()),
+                        other => other.clone(),
+                    }),
+                ));
+            }
+        }
+        Ty::Tuple(ts) | Ty::TupleStruct(_, ts) => {
             for i in 0..ts.len() {
-                for (t2, x2) in shrink_steps(&ts[i], &xs[i]) {
-                    let (mut tt, mut xx) = (ts.clone(), xs.clone());
+                for (t2, c) in type_steps(&ts[i]) {
+                    let mut tt = ts.clone();
                     tt[i] = t2;
-                    xx[i] = x2;
-                    out.push(mk(tt, xx));
+                    let nt = match ty {
+                        Ty::TupleStruct(n, _) => Ty::TupleStruct(*n, tt),
+                        _ => Ty::Tuple(tt),
+                    };
+                    out.push((
+                        nt,
+                        conv(move |v| match v {
+                            TVal::Tuple(xs) => TVal::Tuple(xs.iter().enumerate().map(|(j, x)| if j == i { c(x) } else { x.clone() }).collect()),
+                            other => other.clone(),
+                        }),
+                    ));
+                }
+            }
+        }
+        Ty::Map(k, w) => {
+            for (t2, c) in type_steps(w) {
+                out.push((
+                    Ty::map((**k).clone(), t2),
+                    conv(move |v| match v {
+                        TVal::Map(ps) => TVal::Map(ps.iter().map(|(a, b)| (a.clone(), c(b))).collect()),
+                        other => other.clone(),
+                    }),
+                ));
+            }
+            for (t2, c) in type_steps(k) {
+                out.push((
+                    Ty::map(t2, (**w).clone()),
+                    conv(move |v| match v {
+                        TVal::Map(ps) => TVal::Map(ps.iter().map(|(a, b)| (c(a), b.clone())).collect()),
+                        other => other.clone(),
+                    }),
+                ));
+            }
+        }
+        Ty::Struct(s) => {
+            for i in 0..s.body.fields.len() {
+                for (t2, c) in type_steps(&s.body.fields[i].ty) {
+                    let mut ts: Vec<Ty> = s.body.fields.iter().map(|f| f.ty.clone()).collect();
+                    ts[i] = t2;
+                    out.push((
+                        Ty::strukt(s.name, ts, false),
+                        conv(move |v| match v {
+                            TVal::Struct(xs) => TVal::Struct(xs.iter().enumerate().map(|(j, x)| if j == i { c(x) } else { x.clone() }).collect()),
+                            other => other.clone(),
+                        }),
+                    ));
+                }
+            }
+        }
+        Ty::Enum(e) => {
+            for (j, var) in e.variants.iter().enumerate() {
+                let lift = |nv: VariantTy, f: Conv| -> (Ty, Conv) {
+                    let mut vs = e.variants.clone();
+                    vs[j] = nv;
+                    (
+                        Ty::Enum(EnumTy { name: e.name, voff: e.voff, variants: vs }),
+                        conv(move |v| match v {
+                            TVal::Variant(i, p) if *i as usize == j => TVal::Variant(*i, Box::new(f(p))),
+                            other => other.clone(),
+                        }),
+                    )
+                };
+                match var {
+                    VariantTy::Unit => {}
+                    VariantTy::Newtype(t) => {
+                        for (t2, c) in type_steps(t) {
+                            out.push(lift(VariantTy::Newtype(t2), c));
+                        }
+                    }
+                    VariantTy::Tuple(ts) => {
+                        for (t2, c) in type_steps(&Ty::Tuple(ts.clone())) {
+                            if let Ty::Tuple(t3) = t2
+                                && t3.len() >= 2
+                            {
+                                out.push(lift(VariantTy::Tuple(t3), c));
+                            }
+                        }
+                    }
+                    VariantTy::Struct(fs) => {
+                        let st = Ty::strukt(6, fs.fields.iter().map(|f| f.ty.clone()).collect(), false);
+                        for (t2, c) in type_steps(&st) {
+                            if let Ty::Struct(s3) = t2 {
+                                out.push(lift(VariantTy::Struct(s3.body), c));
+                            }
+                        }
+                    }
+                }
+            }
+        }
+        _ => {}
+    }
+    out
+}
+
+/// Value-level reductions (the type is kept): drop elements, `Some -> None`, canonical leaves.
+fn value_steps(ty: &Ty, v: &TVal) -> Vec<TVal> {
+    let mut out = Vec::new();
+    match (ty, v) {
+        (t, x) if t.is_scalar() => {
+            if let Some(c) = canonical_leaf(t)
+                && c != *x
+            {
+                out.push(c);
+            }
+        }
+        (Ty::Option(t), TVal::Some(x)) => {
+            out.push(TVal::None);
+            for x2 in value_steps(t, x) {
+                out.push(TVal::some(x2));
+            }
+        }
+        (Ty::Newtype(_, t), x) => out.extend(value_steps(t, x)),
+        (Ty::Seq(t), TVal::Seq(xs)) => {
+            for i in 0..xs.len() {
+                let mut ys = xs.clone();
+                ys.remove(i);
+                out.push(TVal::Seq(ys));
+            }
+            for i in 0..xs.len() {
+                for x2 in value_steps(t, &xs[i]) {
+                    let mut ys = xs.clone();
+                    ys[i] = x2;
+                    out.push(TVal::Seq(ys));
+                }
+            }
+        }
+        (Ty::Tuple(ts), TVal::Tuple(xs)) | (Ty::TupleStruct(_, ts), TVal::Tuple(xs)) => {
+            for i in 0..xs.len().min(ts.len()) {
+                for x2 in value_steps(&ts[i], &xs[i]) {
+                    let mut ys = xs.clone();
+                    ys[i] = x2;
+                    out.push(TVal::Tuple(ys));
                 }
             }
         }
@@ -700,109 +998,50 @@ pub fn shrink_steps(ty: &Ty, v: &TVal) -> Vec<(Ty, TVal)> {
             for i in 0..ps.len() {
                 let mut qs = ps.clone();
                 qs.remove(i);
-                out.push((ty.clone(), TVal::Map(qs)));
+                out.push(TVal::Map(qs));
             }
-            if ps.is_empty() {
-                if **k != Ty::Str || **w != Ty::I32 {
-                    out.push((Ty::map(Ty::Str, Ty::I32), TVal::Map(vec![])));
+            for i in 0..ps.len() {
+                for x2 in value_steps(w, &ps[i].1) {
+                    let mut qs = ps.clone();
+                    qs[i].1 = x2;
+                    out.push(TVal::Map(qs));
                 }
-            } else {
-                if **k != Ty::Str {
-                    let qs = ps.iter().enumerate().map(|(i, (_, b))| (TVal::Str(format!("k{i}")), b.clone())).collect();
-                    out.push((Ty::map(Ty::Str, (**w).clone()), TVal::Map(qs)));
-                }
-                if **w != Ty::I32 {
-                    let qs = ps.iter().map(|(a, _)| (a.clone(), TVal::I(0))).collect();
-                    out.push((Ty::map((**k).clone(), Ty::I32), TVal::Map(qs)));
-                }
-                if ps.len() == 1 {
-                    for (t2, x2) in shrink_steps(k, &ps[0].0) {
-                        out.push((Ty::map(t2, (**w).clone()), TVal::Map(vec![(x2, ps[0].1.clone())])));
-                    }
-                    for (t2, x2) in shrink_steps(w, &ps[0].1) {
-                        out.push((Ty::map((**k).clone(), t2), TVal::Map(vec![(ps[0].0.clone(), x2)])));
-                    }
-                } else if ps.iter().all(|(_, b)| *b == ps[0].1) {
-                    for (t2, x2) in shrink_steps(w, &ps[0].1) {
-                        let qs = ps.iter().map(|(a, _)| (a.clone(), x2.clone())).collect();
-                        out.push((Ty::map((**k).clone(), t2), TVal::Map(qs)));
-                    }
-                } else {
-                    let qs = ps.iter().map(|(a, _)| (a.clone(), ps[0].1.clone())).collect();
-                    out.push((ty.clone(), TVal::Map(qs)));
+                for x2 in value_steps(k, &ps[i].0) {
+                    let mut qs = ps.clone();
+                    qs[i].0 = x2;
+                    out.push(TVal::Map(qs));
                 }
             }
         }
         (Ty::Struct(s), TVal::Struct(xs)) => {
-            let mk = |fs: Vec<Ty>, xs: Vec<TVal>| (Ty::strukt(s.name, fs, false), TVal::Struct(xs));
-            let ts: Vec<Ty> = s.body.fields.iter().map(|f| f.ty.clone()).collect();
-            if ts.len() > 1 {
-                for i in 0..ts.len() {
-                    let (mut t2, mut x2) = (ts.clone(), xs.clone());
-                    t2.remove(i);
-                    x2.remove(i);
-                    out.push(mk(t2, x2));
-                }
-            }
-            for i in 0..ts.len() {
-                for (t2, x2) in shrink_steps(&ts[i], &xs[i]) {
-                    let (mut tt, mut xx) = (ts.clone(), xs.clone());
-                    tt[i] = t2;
-                    xx[i] = x2;
-                    out.push(mk(tt, xx));
+            for i in 0..xs.len().min(s.body.fields.len()) {
+                for x2 in value_steps(&s.body.fields[i].ty, &xs[i]) {
+                    let mut ys = xs.clone();
+                    ys[i] = x2;
+                    out.push(TVal::Struct(ys));
                 }
             }
         }
         (Ty::Enum(e), TVal::Variant(i, p)) => {
             let idx = *i as usize;
-            let var = &e.variants[idx];
-            let one = |var: VariantTy, p: TVal| (Ty::enumeration(e.name, 0, vec![var]), TVal::variant(0, p));
-            if e.variants.len() > 1 || e.voff != 0 {
-                out.push(one(var.clone(), (**p).clone()));
+            if idx != 0 {
+                out.push(TVal::variant(0, variant_default(&e.variants[0])));
             }
-            match (var, &**p) {
+            match (&e.variants[idx], &**p) {
                 (VariantTy::Newtype(t), x) => {
-                    for (t2, x2) in shrink_steps(t, x) {
-                        out.push(one(VariantTy::Newtype(t2), x2));
+                    for x2 in value_steps(t, x) {
+                        out.push(TVal::Variant(*i, Box::new(x2)));
                     }
                 }
-                (VariantTy::Tuple(ts), TVal::Tuple(xs)) => {
-                    out.push(one(VariantTy::Newtype(Ty::Tuple(ts.clone())), (**p).clone()));
-                    if ts.len() > 2 {
-                        for j in 0..ts.len() {
-                            let (mut t2, mut x2) = (ts.clone(), xs.clone());
-                            t2.remove(j);
-                            x2.remove(j);
-                            out.push(one(VariantTy::Tuple(t2), TVal::Tuple(x2)));
-                        }
-                    }
-                    for j in 0..ts.len() {
-                        for (t2, x2) in shrink_steps(&ts[j], &xs[j]) {
-                            let (mut tt, mut xx) = (ts.clone(), xs.clone());
-                            tt[j] = t2;
-                            xx[j] = x2;
-                            out.push(one(VariantTy::Tuple(tt), TVal::Tuple(xx)));
-                        }
+                (VariantTy::Tuple(ts), x @ TVal::Tuple(_)) => {
+                    for x2 in value_steps(&Ty::Tuple(ts.clone()), x) {
+                        out.push(TVal::Variant(*i, Box::new(x2)));
                     }
                 }
-                (VariantTy::Struct(fs), TVal::Struct(xs)) => {
-                    let ts: Vec<Ty> = fs.fields.iter().map(|f| f.ty.clone()).collect();
-                    out.push(one(VariantTy::Newtype(Ty::strukt(6, ts.clone(), false)), (**p).clone()));
-                    if ts.len() > 1 {
-                        for j in 0..ts.len() {
-                            let (mut t2, mut x2) = (ts.clone(), xs.clone());
-                            t2.remove(j);
-                            x2.remove(j);
-                            out.push(one(VariantTy::Struct(Fields::new(t2, false)), TVal::Struct(x2)));
-                        }
-                    }
-                    for j in 0..ts.len() {
-                        for (t2, x2) in shrink_steps(&ts[j], &xs[j]) {
-                            let (mut tt, mut xx) = (ts.clone(), xs.clone());
-                            tt[j] = t2;
-                            xx[j] = x2;
-                            out.push(one(VariantTy::Struct(Fields::new(tt, false)), TVal::Struct(xx)));
-                        }
+                (VariantTy::Struct(fs), x @ TVal::Struct(_)) => {
+                    let st = Ty::strukt(6, fs.fields.iter().map(|f| f.ty.clone()).collect(), false);
+                    for x2 in value_steps(&st, x) {
+                        out.push(TVal::Variant(*i, Box::new(x2)));
                     }
                 }
                 _ => {}
@@ -810,6 +1049,21 @@ pub fn shrink_steps(ty: &Ty, v: &TVal) -> Vec<(Ty, TVal)> {
         }
         _ => {}
     }
+    out
+}
+
+/// Typed one-step reductions of a pair: value-level first, then type-level (outermost first).
+/// Every result is a well-formed pair with pairwise distinct map keys.
+pub fn shrink_steps(ty: &Ty, v: &TVal) -> Vec<(Ty, TVal)> {
+    let mut out: Vec<(Ty, TVal)> = Vec::new();
+    for v2 in value_steps(ty, v) {
+        out.push((ty.clone(), v2));
+    }
+    for (t2, c) in type_steps(ty) {
+        let v2 = c(v);
+        out.push((t2, v2));
+    }
+    out.retain(|(t, x)| t.check(x) && keys_distinct(t, x));
     out
 }
 
